@@ -950,19 +950,20 @@ func mutants(r *mrand.Rand, s *signed, hash uint32, others []*signed, keys []*lo
 
 // claimed: what a relying party reads from an opened note: the parsed checkpoint and the
 // timestamp in the signature.
-func strictMonitor(class string, s *signed, hash uint32, nb []byte) {
-	v1, err := sunlight.NewRFC6962Verifier(s.name, s.k.pub)
+func strictMonitor(class string, name string, k *logKey, nb []byte, ref *signed) {
+	v1, err := sunlight.NewRFC6962Verifier(name, k.pub)
 	if err != nil {
 		panic(err)
 	}
+	hash := v1.KeyHash()
 	sp := &spy{Verifier: v1}
 	nn, err := note.Open(nb, note.VerifierList(sp))
 	accepted := err == nil
 	for _, c := range sp.calls {
-		verifyLine(s.name, s.k, c.msg, c.sig, c.ok)
+		verifyLine(name, k, c.msg, c.sig, c.ok)
 	}
 	stats["mut:"+class+":"+b2i(accepted)]++
-	args := []string{class, hx([]byte(s.name)), strconv.Itoa(s.k.alg), hx(s.k.pkix), hx(nb)}
+	args := []string{class, hx([]byte(name)), strconv.Itoa(k.alg), hx(k.pkix), hx(nb)}
 	if !accepted {
 		mon("mon_strict", args, true, "")
 		return
@@ -974,7 +975,7 @@ func strictMonitor(class string, s *signed, hash uint32, nb []byte) {
 	}
 	var raw []byte
 	for _, sg := range nn.Sigs {
-		if sg.Hash == hash && sg.Name == s.name {
+		if sg.Hash == hash && sg.Name == name {
 			raw, _ = base64.StdEncoding.DecodeString(sg.Base64)
 		}
 	}
@@ -983,30 +984,98 @@ func strictMonitor(class string, s *signed, hash uint32, nb []byte) {
 		return
 	}
 	ts := binary.BigEndian.Uint64(raw[4:])
-	ok, why := independentAccepts(s.k.pub, uint64(c.N), [32]byte(c.Hash), ts, raw[12:])
+	ok, why := independentAccepts(k.pub, uint64(c.N), [32]byte(c.Hash), ts, raw[12:])
 	switch {
-	case c.Origin != s.name:
+	case c.Origin != name:
 		mon("mon_strict", args, false, "accepted a foreign origin "+strconv.Quote(c.Origin))
 	case c.Extension != "":
 		mon("mon_strict", args, false, "accepted an extension line")
 	case !ok:
-		mon("mon_strict", args, false, fmt.Sprintf("sunlight accepts (%q,%d,%x,%d) but the independent verifier rejects: %s", c.Origin, c.N, c.Hash, ts, why))
+		mon("mon_strict", args, false, fmt.Sprintf("sunlight accepts (%q,%d,%s,%d) but the independent verifier rejects: %s", c.Origin, c.N, hex.EncodeToString(c.Hash[:]), ts, why))
 	default:
 		mon("mon_strict", args, true, "")
-		if c.N != s.n || [32]byte(c.Hash) != s.root || ts != uint64(s.time) {
+		if ref == nil {
+			return
+		}
+		if c.N != ref.n || [32]byte(c.Hash) != ref.root || ts != uint64(ref.time) {
 			stats["accepted-other-tuple:"+class]++
-		} else if string(nn.Text) != s.text {
+		} else if string(nn.Text) != ref.text {
 			stats["accepted-same-tuple-other-text:"+class]++
 		}
 	}
 }
 
-// direct calls of the verifier closure (no note.Open in front: CR and invalid UTF-8 get through)
-func directStage(r *mrand.Rand, s *signed) {
-	v1, err := sunlight.NewRFC6962Verifier(s.name, s.k.pub)
+// directMonitor: one direct call of the verifier closure (no note.Open in front).
+func directMonitor(name string, k *logKey, msg, blob []byte, refText string) {
+	v1, err := sunlight.NewRFC6962Verifier(name, k.pub)
 	if err != nil {
 		panic(err)
 	}
+	got := v1.Verify(msg, blob)
+	verifyLine(name, k, msg, blob, got)
+	args := []string{"direct", hx([]byte(name)), strconv.Itoa(k.alg), hx(k.pkix), hx(msg), hx(blob)}
+	if !got {
+		mon("mon_strict_direct", args, true, "")
+		return
+	}
+	cp, err := sunlight.ParseCheckpoint(string(msg))
+	if err != nil || len(blob) < 12 {
+		mon("mon_strict_direct", args, false, "accepted an unparsable message")
+		return
+	}
+	ok, why := independentAccepts(k.pub, uint64(cp.N), [32]byte(cp.Hash), binary.BigEndian.Uint64(blob), blob[8:])
+	mon("mon_strict_direct", args, ok && cp.Origin == name && cp.Extension == "", "origin/extension or independent verifier: "+why)
+	if refText != "" && string(msg) != refText {
+		stats["direct-accepted-noncanonical-text"]++
+	}
+}
+
+// replayFile re-evaluates the self-contained monitor lines (mon_strict, mon_strict_direct) of a
+// replay file against the current implementation; other lines are passed through unchanged.
+func replayFile(path string) {
+	data, err := os.ReadFile(path)
+	if err != nil {
+		panic(err)
+	}
+	unhx := func(s string) []byte {
+		if s == "-" {
+			return nil
+		}
+		b, err := hex.DecodeString(s)
+		if err != nil {
+			panic(err)
+		}
+		return b
+	}
+	for _, l := range strings.Split(string(data), "\n") {
+		l = strings.TrimSpace(l)
+		if !strings.Contains(l, "|=>|") {
+			continue
+		}
+		f := strings.Split(strings.SplitN(l, "|=>|", 2)[0], "|")
+		if (f[0] == "mon_strict" && len(f) == 6) || (f[0] == "mon_strict_direct" && len(f) == 7) {
+			pub, err := x509.ParsePKIXPublicKey(unhx(f[4]))
+			if err != nil {
+				panic(err)
+			}
+			alg, _ := strconv.Atoi(f[3])
+			k := &logKey{alg: alg, pub: pub, pkix: unhx(f[4])}
+			if f[0] == "mon_strict" {
+				strictMonitor(f[1], string(unhx(f[2])), k, unhx(f[5]), nil)
+			} else {
+				directMonitor(string(unhx(f[2])), k, unhx(f[5]), unhx(f[6]), "")
+			}
+			continue
+		}
+		if strings.HasPrefix(l, "verify|") {
+			continue // regenerated by the monitors above
+		}
+		fmt.Fprintln(out, l)
+	}
+}
+
+// direct calls of the verifier closure (no note.Open in front: CR and invalid UTF-8 get through)
+func directStage(r *mrand.Rand, s *signed) {
 	lines := strings.SplitN(s.text, "\n", 4)
 	var cases [][2][]byte
 	addc := func(m string, b []byte) { cases = append(cases, [2][]byte{[]byte(m), b}) }
@@ -1025,23 +1094,7 @@ func directStage(r *mrand.Rand, s *signed) {
 	addc(s.text, mutateBytes(r, s.blob))
 	addc("x"+s.text, s.blob)
 	for _, c := range cases {
-		got := v1.Verify(c[0], c[1])
-		verifyLine(s.name, s.k, c[0], c[1], got)
-		args := []string{"direct", hx([]byte(s.name)), strconv.Itoa(s.k.alg), hx(s.k.pkix), hx(c[0]), hx(c[1])}
-		if !got {
-			mon("mon_strict_direct", args, true, "")
-			continue
-		}
-		cp, err := sunlight.ParseCheckpoint(string(c[0]))
-		if err != nil || len(c[1]) < 12 {
-			mon("mon_strict_direct", args, false, "accepted an unparsable message")
-			continue
-		}
-		ok, why := independentAccepts(s.k.pub, uint64(cp.N), [32]byte(cp.Hash), binary.BigEndian.Uint64(c[1]), c[1][8:])
-		mon("mon_strict_direct", args, ok && cp.Origin == s.name && cp.Extension == "", "independent verifier: "+why)
-		if string(c[0]) != s.text {
-			stats["direct-accepted-noncanonical-text"]++
-		}
+		directMonitor(s.name, s.k, c[0], c[1], s.text)
 	}
 	// unsupported key type: the closure must reject everything
 	edpub, _, _ := ed25519.GenerateKey(rand.Reader)
@@ -1054,6 +1107,7 @@ func directStage(r *mrand.Rand, s *signed) {
 func main() {
 	seed := flag.Int64("seed", 1, "seed")
 	n := flag.Int("n", 100, "scale")
+	replayPath := flag.String("replay", "", "re-evaluate the monitor lines of a replay file")
 	flag.Parse()
 	log.SetOutput(io.Discard) // certificate-transparency-go logs "Garbage following signature"
 	out = bufio.NewWriterSize(os.Stdout, 1<<20)
@@ -1069,6 +1123,10 @@ func main() {
 		panic(err)
 	}
 	keys := []*logKey{newECKey(r), newECKey(r)}
+	if *replayPath != "" {
+		replayFile(*replayPath)
+		return
+	}
 	if *n == 0 {
 		return
 	}
@@ -1112,7 +1170,7 @@ func main() {
 			continue
 		}
 		for _, m := range mutants(r, s, v1.KeyHash(), all, keys) {
-			strictMonitor(m.class, s, v1.KeyHash(), m.note)
+			strictMonitor(m.class, s.name, s.k, m.note, s)
 		}
 		directStage(r, s)
 	}
